@@ -677,8 +677,11 @@ do_retrieve(void)
        the same way advance() releases overtaken jobs waiting in retr_q. */
     Trace(("Retriever was overtaken by master"));
     decoder_free(&rb->ds);
+    VERIF_FREE(VERIF_C_DEC);
     free(rb);
     work_units++;
+    VERIF_EV("\"e\":\"RetrEnd\"," VRB "\"rv\":%d,\"kind\":\"overtaken\","
+             "\"master\":0,\"rel\":%u," VST, VRA(&vrb), rv, verif_rel_take(), VSA);
     check_invariants();
     return;
   }
